@@ -366,6 +366,9 @@ def _reduction(opname, dtype=None, index=False):
         at = axis_term(b.get("axis"), rank)
         if rank == 1 and at == const(0):
             at = None
+        axn0 = axis_of(b.get("axis"), rank)
+        if at is not None and sh is not None and isinstance(axn0, int) and 0 <= axn0 < len(sh) and all(d.is_const() and d.c == 1 for i_, d in enumerate(sh) if i_ != axn0) and opname in ("sum", "mean", "amax", "amin", "any", "all", "prod"):
+            at = None  # every other axis has extent 1: the reduction along this axis is the total
         if at is not None:
             parts.append(("axis", at))
         kd = b.get("keepdims")
